@@ -23,13 +23,16 @@ purpose is in design.d/C19.md, every construct is run through Python and Lean by
                another length), locals of one branch (assigned and used inside it only), and four
                shapes of `for`:
                  over a literal list (unrolled) | `if c: return e` (List.find?) |
-                 flag with `break` and `else: flag = False` (List.any) | updates of one local (List.foldl)
-  expressions  str / bool / None / int constants, tuples, `{"k": "v", ...}` and `[…]` literals, names of parameters and
+                 flag with `break` and `else: flag = False` (List.any) | updates of one local (List.foldl);
+               the last three may start with guards `if c: continue` (the list is filtered; no other `continue`);
+               inside an accumulation: `for y in L: if c: <updates>; break` (the updates for the first y with c),
+               `S.add(e)` on a local declared `set()` (a list; only emptiness and membership are meaningful)
+  expressions str / bool / None / int constants, tuples, `{"k": "v", ...}` and `[…]` literals, names of parameters and
                locals, `d["k"]` (KeyError when missing), `==`, `!=`, `is None`, `is not None`, `< <= > >=` and `+ - *`
                on integers, `max(a, b)`, `min(a, b)`, `len(list)`, `in` / `not in` on literal lists/tuples/sets of
                strings (or a module level constant holding one), on list values and between strings (substring),
                `s.startswith(p)`, `s.lower()`, `s.split()`, `s.split("c")`, `s.replace("c", "")`, `a + b` on strings, `and`, `or`, `not`, `a if c else b`,
-               `a or b` on lists, truthiness of lists and sets, `[e for x in l if c]`, `any(…)` / `all(…)` over a
+               `a or b` on lists, truthiness of lists and sets, `l[0]` (declared IndexError), `[e for x in l if c]`, `any(…)` / `all(…)` over a
                generator, `{*l}` with `-`, `&`, `|` of which only emptiness (`len(S) > 0`, truthiness) is observable
   added for harness/pygen_pxindex.py (C16, C17; selftest: harness/pygen_pxindex_selftest.py): call templates through a
                chain of method calls (`d.get(_1, {}).get(_2, _3)`, `{}` stays in the key); `x = set()`, `|=` on sets;
@@ -220,13 +223,14 @@ class Spec:
                 function's monad (`self.should_rerun = lambda _: False` -> `set true`); it may contain what is refused
                 elsewhere (attribute stores, lambdas)
     unpack_error Lean term thrown by `a, b = <list of strings>` when the list has another length (Python's ValueError)
+    index_error Lean term thrown by `l[0]` on an empty list (Python's IndexError)
     type_defaults {opaque Lean type: a value of it}: values of these types may be compared with `==` (the type has a lawful
                 `BEq`) and locals of these types may be first assigned inside the branches of an `if`
     """
 
     def __init__(self, lean_name, binders, params, ret, atoms=None, blocks=None, monad="pure", doc="", calls=None,
                  assign_blocks=None, raises=None, ignored_calls=(), transparent_with=(), fields=None, prims=None,
-                 prelude=(), local_types=None, type_defaults=None, stmts=None, unpack_error=None):
+                 prelude=(), local_types=None, type_defaults=None, stmts=None, unpack_error=None, index_error=None):
         self.lean_name = lean_name
         self.binders = list(binders)
         self.params = dict(params)
@@ -245,6 +249,7 @@ class Spec:
         self.type_defaults = dict(type_defaults or {})
         self.stmts = {norm_block(k): v for k, v in (stmts or {}).items()}
         self.unpack_error = unpack_error
+        self.index_error = index_error
         self.monad = monad
         self.doc = doc
 
@@ -347,6 +352,13 @@ class _Fn:
         for n in ast.walk(fn):
             if isinstance(n, ast.stmt) and n is not fn and dump_stmts([n]) in self.spec.stmts:
                 pinned |= {id(x) for x in ast.walk(n)}
+        # a lambda may only occur inside a keyword argument of a call that is a key of `spec.calls` (there it is part of
+        # the declared text, e.g. `sorted(_1, key=lambda n: n.rank)`); it is never translated
+        for n in ast.walk(fn):
+            if isinstance(n, ast.Call) and n.keywords and not any(isinstance(a, ast.Starred) for a in n.args) \
+                    and self._template(n)[0] in self.spec.calls:
+                for kw in n.keywords:
+                    pinned |= {id(x) for x in ast.walk(kw.value) if isinstance(x, (ast.Lambda, ast.arguments, ast.arg))}
         for n in ast.walk(fn):
             if id(n) in pinned:
                 continue
@@ -541,6 +553,13 @@ class _Fn:
         if not isinstance(node.ctx, ast.Load):
             raise Unsupported(f"{self.fn.name}:{node.lineno}: `{ast.unparse(node)}`")
         d, ty = self.expr(node.value, eff)
+        if elem_type(ty) is not None and isinstance(node.slice, ast.Constant) and type(node.slice.value) is int \
+                and node.slice.value == 0:
+            # `l[0]`: the first element, Python's IndexError for the empty list
+            if self.spec.index_error is None or not self.spec.monadic or self.lam or not eff:
+                raise Unsupported(f"{self.fn.name}:{node.lineno}: `{ast.unparse(node)}` (the first element of a list only in a "
+                                  "function that declares the error of an empty list, outside loops and positions Python may skip)")
+            return (f"(← (match {d} with | pyHd :: _ => pure pyHd | [] => throw {self.spec.index_error}))"), elem_type(ty)
         if not (isinstance(node.slice, ast.Constant) and isinstance(node.slice.value, str)):
             raise Unsupported(f"{self.fn.name}:{node.lineno}: subscript `{ast.unparse(node)}` (only [\"literal\"])")
         if isinstance(ty, str) and ty not in LEAN_TYPES:
@@ -1334,8 +1353,16 @@ class _Fn:
         if isinstance(s.iter, (ast.List, ast.Tuple)) and not any(isinstance(e, ast.Starred) for e in s.iter.elts) \
                 and self.atom(s.iter) is None and not _str_elements(s.iter):
             return self._for_unrolled(s, depth, top, where)
-        if any(isinstance(n, ast.Continue) for n in ast.walk(s)):
-            raise Unsupported(f"{where}: `continue`")
+        # leading guards  `if c: continue`  (the first statements of the body): the loop runs over the elements that
+        # pass none of them, i.e. over the filtered list; any other `continue` is refused
+        body = list(s.body)
+        guards = []
+        while len(body) > 1 and isinstance(body[0], ast.If) and not body[0].orelse and len(body[0].body) == 1 \
+                and isinstance(body[0].body[0], ast.Continue):
+            guards.append(body.pop(0).test)
+        if any(isinstance(n, ast.Continue) for b in body + s.orelse for n in ast.walk(b)) \
+                or any(isinstance(n, ast.Continue) for t in guards for n in ast.walk(t)):
+            raise Unsupported(f"{where}: `continue` (only as the whole body of leading `if c: continue` guards)")
         if not isinstance(s.target, ast.Name) or s.target.id not in self.loopvars:
             raise Unsupported(f"{where}: loop target `{ast.unparse(s.target)}` (a name that is bound by this loop only)")
         src, ts = self.expr(s.iter)
@@ -1344,8 +1371,10 @@ class _Fn:
             raise Unsupported(f"{where}: loop over a {ts} (lists only)")
         v = lean_ident(s.target.id)
         scope = {s.target.id: (v, et)}
+        if guards:
+            conds = self._under(scope, lambda: [self.cond(t, False) for t in guards])
+            src = f"({src}.filter (fun {v} => {' && '.join('(!' + c + ')' for c in conds)}))"
         # leading loop-local bindings  `y = <pure expression>`  (each name assigned here only and unknown outside)
-        body = list(s.body)
         lets = []
         all_names_outside = {x.id for x in ast.walk(self.fn) if isinstance(x, ast.Name)
                              and not any(x is y for y in ast.walk(s))}
@@ -1459,7 +1488,9 @@ class _Fn:
             if ok and len(mentions) == allowed and self.assigned.get(flag) == len(body) - 1 + 1:
                 return "any"
         # (3)  for x in L: [lets]; statements that update ONE declared local
-        if s.orelse or any(isinstance(n, (ast.Break, ast.Return, ast.Raise)) for b in body for n in ast.walk(b)):
+        inner_breaks = {id(n.body[0].body[-1]) for b in body for n in ast.walk(b) if _first_match_loop(n)}
+        if s.orelse or any(isinstance(n, (ast.Return, ast.Raise)) or (isinstance(n, ast.Break) and id(n) not in inner_breaks)
+                           for b in body for n in ast.walk(b)):
             raise Unsupported(f"{where}: this loop shape is outside the subset (accepted: `if c: return e` search loops, "
                               "flag loops with `break` and `else: flag = False`, accumulations without break/return)")
         accs = set()
@@ -1470,7 +1501,7 @@ class _Fn:
                                                                for bb in body for f in ast.walk(bb))):
                     accs.add(n.id)                          # (the target of a nested loop / comprehension is no accumulator)
                 if isinstance(n, ast.Expr) and isinstance(n.value, ast.Call) and isinstance(n.value.func, ast.Attribute) \
-                        and n.value.func.attr == "append" and isinstance(n.value.func.value, ast.Name):
+                        and n.value.func.attr in ("append", "add") and isinstance(n.value.func.value, ast.Name):
                     accs.add(n.value.func.value.id)
         if len(accs) != 1 or list(accs)[0] not in self.locals:
             raise Unsupported(f"{where}: the loop body updates {sorted(accs)}; exactly one local declared before the "
@@ -1510,10 +1541,30 @@ class _Fn:
                 tv = self._narrowed(name, ty, lambda: self._fold_seq(vstmts, acc, where)) if vstmts else a
                 tn = self._fold_seq(nstmts, acc, where) if nstmts else a
                 steps.append(f"(match {lean_ident(name)} with | none => {tn} | some pyVal_{name} => {tv})")
+            elif isinstance(b, ast.Expr) and isinstance(b.value, ast.Call) and isinstance(b.value.func, ast.Attribute) \
+                    and b.value.func.attr == "add" and isinstance(b.value.func.value, ast.Name) \
+                    and b.value.func.value.id == acc and len(b.value.args) == 1 and not b.value.keywords and ta == "sset":
+                t, ty = self.expr(b.value.args[0], False)
+                if ty != "str":
+                    raise Unsupported(f"{w}: a {ty} added to a set of strings")
+                steps.append(f"({a} ++ [{t}])")
             elif isinstance(b, ast.If):
                 c = self.cond(b.test, False)
                 steps.append(f"(if {c} then {self._fold_seq(b.body, acc, where)} else "
                              f"{self._fold_seq(b.orelse, acc, where) if b.orelse else a})")
+            elif _first_match_loop(b):
+                # for y in L: if c: <updates>; break     -> the updates for the first y with c, nothing when there is none
+                if not isinstance(b.target, ast.Name) or b.target.id not in self.loopvars:
+                    raise Unsupported(f"{w}: loop target `{ast.unparse(b.target)}`")
+                src, ts = self.expr(b.iter, False)
+                et = elem_type(ts)
+                if et is None:
+                    raise Unsupported(f"{w}: loop over a {ts} (lists only)")
+                y = lean_ident(b.target.id)
+                test = b.body[0]
+                hit = self._under({b.target.id: (y, et)},
+                                  lambda: (self.cond(test.test, False), self._fold_seq(test.body[:-1], acc, where)))
+                steps.append(f"(match ({src}.find? (fun {y} => {hit[0]})) with | some {y} => {hit[1]} | none => {a})")
             elif isinstance(b, ast.For):
                 # a nested loop that updates the same accumulator: an inner fold that starts from its current value
                 if b.orelse or not isinstance(b.target, ast.Name) or b.target.id not in self.loopvars \
@@ -1579,6 +1630,14 @@ class _Fn:
                 b2 = ast.fix_missing_locations(T().visit(copy.deepcopy(b)))
                 done = self.stmt(b2, depth, top)
         return done
+
+
+def _first_match_loop(n):
+    """`for y in L: if c: <statements>; break` (no else branches): acts on the first element with `c`"""
+    return isinstance(n, ast.For) and not n.orelse and len(n.body) == 1 and isinstance(n.body[0], ast.If) \
+        and not n.body[0].orelse and len(n.body[0].body) >= 2 and isinstance(n.body[0].body[-1], ast.Break) \
+        and not any(isinstance(x, (ast.Break, ast.Continue, ast.Return, ast.Raise, ast.For))
+                    for st in n.body[0].body[:-1] for x in ast.walk(st))
 
 
 def _dotted(node):
